@@ -1346,7 +1346,7 @@ func estOf[K comparable](s *sketch[K], k K) uint64 {
 //@   ensures [clock-stable] pre(ghost_clockRead()) ==> ghost_clockRead() && ghost_now() == pre(ghost_now())
 //@   ensures [wiring-kept] pre(wired(c)) ==> wired(c)
 
-//@ func (*cache).BulkGet : C10 C08 C20
+//@ func (*cache).BulkGet : C10 C08 C20 C11 C01 C03
 //@   var kstar K
 //@   requires cfg(c) && c.singleflight != nil && ghost_calls_load() == 0
 //@   modifies *
